@@ -327,6 +327,21 @@ def _stable_hash(text):
     return zlib.crc32(text.encode("utf-8"))
 
 
+def normalise_case(c):
+    """applied to every case of every family before it is run: at most one driver fault per call (what two faults committed in
+    one call amount to depends on the order the scripted driver commits them in - harness and model need not agree on that,
+    and the crate is not concerned)"""
+    fl = c.get("faults")
+    if fl:
+        seen, uniq = set(), []
+        for k_, what_ in fl:
+            if k_ not in seen:
+                seen.add(k_)
+                uniq.append((k_, what_))
+        c["faults"] = uniq
+    return c
+
+
 def add_faults(casefn, kinds, frac=0.6, cont=0.0):
     """wrap a family: a fraction of the cases gets one driver fault at a random call index;
     with probability `cont` the caller keeps iterating after an IO error item"""
@@ -344,6 +359,16 @@ def add_faults(casefn, kinds, frac=0.6, cont=0.0):
                 # the FIRST answer defines the layout (any subset and permutation of the output-capable signals):
                 # at call 0 only faults that keep it such a layout are meaningful as "the first answer"
                 c["faults"] = [((1 if (k == 0 and what.split()[0] in ("add", "dup", "subst", "widen", "addw", "swapsig")) else k), what) for k, what in c["faults"]]
+                # at most ONE fault per call: what a driver does when it commits two faults in the same call (say, adds a copy of
+                # a signal and exchanges two entries of its table) depends on the order in which it commits them, which the
+                # scripted drivers of harness and model need not share; such a case says nothing about the crate
+                seen_calls = set()
+                uniq = []
+                for k_, what_ in c["faults"]:
+                    if k_ not in seen_calls:
+                        seen_calls.add(k_)
+                        uniq.append((k_, what_))
+                c["faults"] = uniq
         return cases
     return f
 
